@@ -6,6 +6,7 @@ import copy
 import itertools
 
 import numpy as np
+import scipy.sparse as sp
 
 from . import env
 
@@ -580,7 +581,25 @@ def run_case(ctx):
     if e.chance(40):
         faces = [(p, (ax, s)) for p in range(npatch) for ax in range(dim) for s in (0, 1)]
         sel = [faces[i] for i in e.sample_positions(len(faces), 5)]
-        bdconds = [(p, bd, (lambda *x: 1.0 + x[0])) for p, bd in sel]
+        # the conditions are listed in a seeded ORDER (not by patch number), possibly with one face named twice and
+        # with the string spelling of a face; the data are not constant
+        order = list(range(len(sel)))
+        for i in range(len(order) - 1, 0, -1):
+            j = e.choice(i + 1)
+            order[i], order[j] = order[j], order[i]
+        sel = [sel[i] for i in order]
+        if len(sel) > 1 and e.chance(20):
+            sel.append(sel[0])
+        names = {(0, 0): 'left', (0, 1): 'right', (1, 0): 'bottom', (1, 1): 'top', (2, 0): 'front', (2, 1): 'back'}
+        # documented string spellings: "left" = x low, ..., where x is the LAST parameter axis
+        def spell(bd):
+            return names[(dim - 1 - bd[0], bd[1])]
+
+        def gdir(*x):
+            return 1.0 + x[0] + 2.0 * x[1]
+        as_str = [bool(e.chance(25)) for _ in sel]
+        bdconds = [(p, (spell(bd) if st else bd), gdir) for (p, bd), st in zip(sel, as_str)]
+        ctx.log(['dirichlet', [[p, list(bd), st] for (p, bd), st in zip(sel, as_str)]])
         r = ctx.call('compute_dirichlet_bcs', MPf.compute_dirichlet_bcs, bdconds)
         if r is ctx_raised():
             return
@@ -590,11 +609,54 @@ def run_case(ctx):
             for i in face_dofs(cx['shapes'][p], bd[0], bd[1]):
                 want.add(int(idxs[p][i]))
         ind = [int(i) for i in ind]
+        val = np.asarray(val, dtype=float)
         ctx.count('dirichlet.checked')
         ctx.check(len(set(ind)) == len(ind) and set(ind) == want, 'dirichlet-indices',
                   lambda: 'faces %s: indices %s, expected the glued dofs %s' % (sel, sorted(ind), sorted(want)),
                   {'what': 'dirichlet'})
         ctx.check(len(val) == len(ind), 'dirichlet-values', 'values/indices length mismatch', {'what': 'dirichlet'})
+        if len(val) == len(ind) and set(ind) == want and len(set(ind)) == len(ind):
+            # VALUES: (a) against the single-patch routine (not part of the multipatch code) scattered through the
+            # validated local-to-global maps; (b) where g o geo lies in the spline space (multilinear geometry, g affine)
+            # every approximation scheme reproduces it: the coefficient is g at the physical Greville point
+            expect = {}
+            for p, bd in sel:
+                kvs_p, geo_p = cx['patches'][p]
+                li, lv = assemble.compute_dirichlet_bc(kvs_p, geo_p, bd, gdir)
+                for i, v in zip(li, lv):
+                    expect.setdefault(int(idxs[p][int(i)]), []).append(float(v))
+            exact = {}
+            if cx['desc']['kind'] in ('box2', 'box3', 'ring'):
+                for p, bd in sel:
+                    G = greville_points(cx, p)
+                    for i in face_dofs(cx['shapes'][p], bd[0], bd[1]):
+                        exact.setdefault(int(idxs[p][i]), []).append(float(gdir(*G[i])))
+
+            def judge(pairs, how):
+                bad = []
+                for gi, v in pairs:
+                    cands = expect.get(gi, []) + exact.get(gi, [])
+                    if not any(abs(v - c) <= 1e-9 * (1.0 + abs(c)) for c in cands):
+                        bad.append((gi, v, cands[:2]))
+                ctx.check(not bad, 'dirichlet-value-on-wrong-dof',
+                          lambda: '%s: %d of %d Dirichlet values do not belong to the glued dof they are attached to, e.g. '
+                                  'global dof %d gets %.6g, expected %s (conditions %s)' % (how, len(bad), len(pairs), bad[0][0], bad[0][1],
+                                                                                             bad[0][2], [(p, bd) for p, bd in sel]),
+                          {'what': 'dirichlet-values', 'how': how})
+            judge(list(zip(ind, val)), 'pairs (index[k], value[k])')
+            # ... and as seen by the documented consumer: "a pair (indices, values) suitable for passing to
+            # RestrictedLinearSystem"; the completed vector must carry each value on its own dof and zero elsewhere
+            n = MPf.numdofs
+            LS = ctx.call('RestrictedLinearSystem', assemble.RestrictedLinearSystem, sp.identity(n, format='csr'), np.zeros(n),
+                          (np.asarray(r[0]), np.asarray(r[1])))
+            if LS is ctx_raised():
+                return
+            u = np.asarray(LS.complete(np.zeros(LS.A.shape[0]))).ravel()
+            judge([(gi, float(u[gi])) for gi in sorted(want)], 'RestrictedLinearSystem(A, b, bcs).complete(0)')
+            free = np.ones(n, dtype=bool)
+            free[sorted(want)] = False
+            ctx.check(not np.any(u[free] != 0.0), 'dirichlet-value-on-free-dof', 'completed vector is nonzero on a free dof',
+                      {'what': 'dirichlet-values'})
 
     # ---- assembled system = sum over patches of the per-patch systems scattered through the (already
     # validated) local-to-global maps: every complex kind, also after partial delivery
